@@ -173,7 +173,7 @@ PROFILES.update({
     "signals": {"watchers": 3, "stop_children": True, "fork": 0.25, "anypid": 0.7, "childany": 0.3, "childsel": 0.2, "cmds": ["signal", "signal", "kill", "stop", "incr"],
                 "steps": 18},
     "boot": {"watchers": 4, "autostart": True, "patterns": 0.5, "hooks": ["before_spawn", "after_spawn"], "slowhooks": 0.8,
-             "Ws": [0.1, 0.2, 0.3], "cmds": ["restart", "start", "stop"], "steps": 8, "kcall_deaths": 0.6,
+             "Ws": [0.0, 0.1, 0.2, 0.3], "wgs": [0.0, 0.1, 0.3, 0.5], "cmds": ["restart", "start", "stop"], "steps": 8, "kcall_deaths": 0.6,
              "check_delays": [1.0, 2.0]},
     "shutdown": {"dsig": 0.5, "cmds": ["quit", "stop", "restart", "incr", "kill", "status"], "stubborn": 0.4,
                  "partial": 0.4, "steps": 14, "xprobe": False},
